@@ -17,6 +17,11 @@ def main():
     for sd, g, text, out, cls, d in gen.programs('C01-pool', npool): progs.append(('pool:' + sd, g, text, out, cls)); disc = d
     d0 = disc
     for sd, g, text, out, cls, d in gen.programs('C01-fresh-%d' % ctx.seed, nfresh): progs.append(('fresh:' + sd, g, text, out, cls)); disc = d0 + d
+    # opt-in shapes that the shared pools do not contain (their text is pinned by other checks' recorded findings):
+    # tagged unions with two branches of one type, built with [tag == value]  (seeded change C01-union-tag-index)
+    ntag = ctx.q(40, 400)
+    for tagn, cnt in (('C01-tagged-pool', ntag // 2), ('C01-tagged-fresh-%d' % ctx.seed, ntag - ntag // 2)):
+        for sd, g, text, out, cls, d in gen.programs(tagn, cnt, extra=('taggedunion', 'unions')): progs.append(('tagged:' + sd, g, text, out, cls))
     ctx.log('%d programs (%d discarded by the discipline)' % (len(progs), disc))
     base = ctx.tmp('w')
     LEVELS = ['-Q1', '-Q0'] if ctx.tier == 'quick' else ['-Q1', '-Q0', '-Q3']
